@@ -409,41 +409,55 @@ structure Compiled where
   main : List TNode
   defs : List (String × List TNode)
 
-/-- replace the placeholder block name in the `__freeze` of a call action -/
-partial def renameFreeze (newName : String) : TExpr → TExpr
-  | .fcall "__freeze" _ => .fcall "__freeze" [.lit (.str newName)]
-  | .fcall n args => .fcall n (args.map (renameFreeze newName))
-  | .field r n args => .field (renameFreeze newName r) n (args.map (renameFreeze newName))
-  | e => e
+/-- replace the placeholder block name in the `__freeze` of a call action; recursion on the fuel -/
+def renameFreezeF (newName : String) : Nat → TExpr → TExpr
+  | 0, e => e
+  | fuel + 1, e =>
+    match e with
+    | .fcall "__freeze" _ => .fcall "__freeze" [.lit (.str newName)]
+    | .fcall n args => .fcall n (args.map (renameFreezeF newName fuel))
+    | .field r n args => .field (renameFreezeF newName fuel r) n (args.map (renameFreezeF newName fuel))
+    | e => e
+
+def renameFreeze (newName : String) (e : TExpr) : TExpr := renameFreezeF newName 1000 e
 
 /-- hoist the blocks of mixin calls into their own templates, numbering them in rendering order
-    (`block_<mixin>_<counter>`, renderState.mixincounter) -/
-partial def hoistBlocks : List Frag → Nat → List Frag × List (String × List Frag) × Nat
-  | [], k => ([], [], k)
-  | .blockDef m body :: rest, k =>
+    (`block_<mixin>_<counter>`, renderState.mixincounter); recursion on the fuel -/
+def hoistBlocksF : Nat → List Frag → Nat → List Frag × List (String × List Frag) × Nat
+  | 0, fs, k => (fs, [], k)
+  | _ + 1, [], k => ([], [], k)
+  | fuel + 1, .blockDef m body :: rest, k =>
     -- the block's own body is rendered first (Block.Render before the counter is read)
-    let (body', defs1, k1) := hoistBlocks body k
+    let (body', defs1, k1) := hoistBlocksF fuel body k
     let name := s!"block_{m}_{k1}"
     let rest' := match rest with
       | .act lt rt (.template nm (some a)) :: r => Frag.act lt rt (.template nm (some (renameFreeze name a))) :: r
       | r => r
-    let (rest'', defs2, k2) := hoistBlocks rest' (k1 + 1)
+    let (rest'', defs2, k2) := hoistBlocksF fuel rest' (k1 + 1)
     (rest'', defs1 ++ [(name, body')] ++ defs2, k2)
-  | f :: rest, k =>
-    let (rest', defs, k') := hoistBlocks rest k
+  | fuel + 1, f :: rest, k =>
+    let (rest', defs, k') := hoistBlocksF fuel rest k
     (f :: rest', defs, k')
 
-/-- all mixin definitions of the document in rendering order; the first definition of a name wins -/
-partial def collectMixinDefs : List Node → List (String × List String × List Node)
-  | [] => []
-  | n :: rest =>
+/-- fuel of the fragment-level passes -/
+def fragFuel : Nat := 10000000
+
+def hoistBlocks (fs : List Frag) (k : Nat) : List Frag × List (String × List Frag) × Nat := hoistBlocksF fragFuel fs k
+
+/-- all mixin definitions of the document in rendering order; the first definition of a name wins; recursion on the fuel -/
+def collectMixinDefsF : Nat → List Node → List (String × List String × List Node)
+  | 0, _ => []
+  | _ + 1, [] => []
+  | fuel + 1, n :: rest =>
     let here := match n with
-      | .mixinDef name params kids => [(name, params, kids)] ++ collectMixinDefs kids
-      | .tag _ _ _ _ kids | .each _ _ _ kids | .while _ kids | .mixinCall _ _ _ kids => collectMixinDefs kids
-      | .cond _ thn els => collectMixinDefs thn ++ (match els with | some e => collectMixinDefs e | none => [])
-      | .case _ whens => (whens.map fun w => collectMixinDefs w.2).flatten
+      | .mixinDef name params kids => [(name, params, kids)] ++ collectMixinDefsF fuel kids
+      | .tag _ _ _ _ kids | .each _ _ _ kids | .while _ kids | .mixinCall _ _ _ kids => collectMixinDefsF fuel kids
+      | .cond _ thn els => collectMixinDefsF fuel thn ++ (match els with | some e => collectMixinDefsF fuel e | none => [])
+      | .case _ whens => (whens.map fun w => collectMixinDefsF fuel w.2).flatten
       | _ => []
-    here ++ collectMixinDefs rest
+    here ++ collectMixinDefsF fuel rest
+
+def collectMixinDefs (ns : List Node) : List (String × List String × List Node) := collectMixinDefsF fragFuel ns
 
 def trimMarker : Frag := .act true true (.print (.lit (.str "")) false)
 
